@@ -273,8 +273,10 @@ def run_case(case):
         continue
       accepted += 1
       stats["translations"] += len(texts)
-      D.add(k, backend, hashlib.sha256(strip_comments(texts[0]).encode()).hexdigest())
       # (1) byte identity
+      if len(set(texts)) == 1 and design_tag(d) != "object_parameter_default_repr":
+        # (only texts that are reproducible enter the run digest)
+        D.add(k, backend, hashlib.sha256(strip_comments(texts[0]).encode()).hexdigest())
       if len(set(texts)) != 1:
         a, b = texts[0].splitlines(), [t for t in texts if t != texts[0]][0].splitlines()
         i = next((i for i in range(min(len(a), len(b))) if a[i] != b[i]), min(len(a), len(b)))
